@@ -1315,13 +1315,32 @@ class SymRange:
             self.start, self.stop, self.step = a[0], a[1], 1
         else:
             self.start, self.stop, self.step = a
-        if is_sym(self.step) or is_sym(self.start):
-            raise Unsupported("symbolic range start/step")
+        if is_sym(self.step) or (is_sym(self.start) and is_sym(self.stop)):
+            raise Unsupported("symbolic range step, or symbolic start and stop together")
 
     def iterate(self, interp):
+        c = ctx()
+        if is_sym(self.start):
+            # a symbolic first index below a concrete bound: fork on its value (an empty range is one case, more than `unwind`
+            # iterations is reported like any other loop that does not fit the bound)
+            st, stop = self.start, int(self.stop)
+            if isinstance(st, SymBool):
+                st = st._num()
+            if not st.is_int:
+                raise Unsupported("real-valued range start")
+            empty = (st >= stop) if self.step > 0 else (st <= stop)
+            if c.branch(zbool(empty)):
+                return
+            lo, hi = (stop - c.unwind, stop) if self.step > 0 else (stop + 1, stop + c.unwind + 1)
+            for k in range(lo, hi):
+                if c.branch(st.z == k):
+                    self.start = k
+                    break
+            else:
+                c.stats["unwind_fail"] += 1
+                raise UnwindExceeded("symbolic range start more than %d iterations away from its bound" % c.unwind)
         i = int(self.start)
         n = 0
-        c = ctx()
         while True:
             cond = (i < self.stop) if self.step > 0 else (i > self.stop)
             if n >= c.unwind:
